@@ -1,5 +1,4 @@
 //@ variant: lower DEFS=-DBT_LOWER
-//@ variant: zero DEFS=-DBT_ZERO
 //@ variant: huge DEFS=-DBT_HUGE
 //@ tu: libxcm/tp/tls/xcm_tp_btls.c
 //@ defs: $DEFS
@@ -16,7 +15,13 @@ void harness(void)
     struct xcm_socket *s; const void *buf; size_t len;
     long w0 = xv_sw_calls, h0 = xv_hs_calls, t0 = xv_tx_off;
     int rv = btls_send(s, buf, len);
+#ifdef BT_HUGE
+    if (xv_sw_calls == w0 + 1 && xv_sw_num < 0 && rv == -1 && xv_errno == EPROTO) XV_CANARY("len 2^31..: SSL_write entered with a NEGATIVE num, connection killed with EPROTO");
+    if (xv_sw_calls == w0 + 1 && xv_sw_num == 0 && rv == -1 && xv_errno == EPIPE) XV_CANARY("len 2^32: SSL_write entered with num 0, connection declared closed");
+    if (xv_sw_calls == w0 + 1 && xv_sw_num == 7 && rv == 7) XV_CANARY("len 2^32 + 7: seven bytes offered to OpenSSL");
+#else
     if (rv >= 1 && (size_t)rv == len && xv_hs_calls == h0) XV_CANARY("ready: everything accepted");
+#endif
     if (rv >= 1 && (size_t)rv < len) XV_CANARY("ready: partial acceptance");
     if (rv >= 1 && xv_hs_calls == h0 + 1) XV_CANARY("handshake finished in this call, then data accepted");
     if (rv == -1 && xv_errno == EAGAIN && xv_hs_calls == h0 + 1 && xv_sw_calls == w0) XV_CANARY("still handshaking: EAGAIN, no SSL_write");
@@ -26,7 +31,7 @@ void harness(void)
     if (rv == -1 && xv_errno == EPROTO && xv_sw_calls == w0 + 1 && xv_ssl_err == SSL_ERROR_SSL) XV_CANARY("protocol error in SSL_write: EPROTO");
     if (rv == -1 && xv_errno == ECONNRESET && xv_sw_calls == w0 && xv_hs_calls == h0) XV_CANARY("bad before: stored errno");
     if (rv == -1 && xv_hs_calls == h0 + 1 && xv_hs_ret == 1 && xv_sw_calls == w0) XV_CANARY("policy not met after handshake: no SSL_write");
-#ifdef BT_ZERO
+#ifndef BT_HUGE
     if (rv == 0) XV_CANARY("zero-length send");
 #endif
 }
